@@ -25,7 +25,7 @@ WORD_EDGES = [0x100, 0x101, 0x1FF, 0x7FFF, 0x8000, 0xFFFE, 0xFFFF, 0x10000, 0x10
 
 def run(tier, seed):
     chk = C.Check("C03", tier, seed)
-    C.std_setup(chk)
+    C.std_setup(chk, forms_arch="6502")
     rng = random.Random(seed)
     cases = []
     byte_vals = list(range(256))
@@ -49,6 +49,10 @@ def run(tier, seed):
                                 continue
                             tgt = pc + 2 + dist
                             cases.append(mk(rng, mn, sp, tgt, known, pc, render))
+                        # targets whose distance fits only modulo 64K, and targets outside the address space
+                        for w in (0x10000, -0x10000, 0x20000):
+                            for k in (-130, -128, -2, 0, 3, 127, 129):
+                                cases.append(mk(rng, mn, sp, pc + 2 + w + k, known, pc, render))
                     continue
                 for v in vals:
                     pc = rng.choice(origins) if mn not in BRANCHES else 0x1000
